@@ -30,6 +30,7 @@ from humanfriendly.tables import format_pretty_table
 from humanfriendly.terminal import ansi_wrap
 
 from rebench.model.run_id import RunId
+from rebench.ui import escape_braces
 
 
 class Reporter(object):
@@ -277,7 +278,7 @@ class CodespeedReporter(Reporter):
             try:
                 response = self._send_payload(payload)
                 self.ui.verbose_error_info("Sent %d results to Codespeed, response was: %s\n"
-                                            % (len(results), response))
+                                            % (len(results), escape_braces(str(response))))
             except (IOError, HTTPException) as error:
                 envs = list({i['environment'] for i in results})
                 projects = list({i['project'] for i in results})
@@ -288,14 +289,15 @@ class CodespeedReporter(Reporter):
                        + "{ind}{ind}projects: %s\n"
                        + "{ind}{ind}benchmarks: %s\n"
                        + "{ind}{ind}executables: %s\n") % (
-                           envs, projects, benchmarks, executables)
+                           escape_braces(str(envs)), escape_braces(str(projects)),
+                           escape_braces(str(benchmarks)), escape_braces(str(executables)))
 
                 self.ui.error(
                     "{ind}Error: Reporting to Codespeed failed.\n"
-                    + "{ind}{ind}" + str(error) + "\n"
+                    + "{ind}{ind}" + escape_braces(str(error)) + "\n"
                     + "{ind}{ind}This is most likely caused by either a wrong URL in the\n"
                     + "{ind}{ind}config file, or an environment not configured in Codespeed.\n"
-                    + "{ind}{ind}URL: " + self._cfg.url + "\n"
+                    + "{ind}{ind}URL: " + escape_braces(self._cfg.url) + "\n"
                     + "{ind}{ind}" + msg + "\n", run_id)
 
     def _prepare_result(self, run_id):
